@@ -12,6 +12,7 @@ import (
 	"time"
 
 	dtlsstate "github.com/pion/dtls/v3/internal/state"
+	"github.com/pion/dtls/v3/pkg/crypto/elliptic"
 	"github.com/pion/dtls/v3/pkg/protocol"
 )
 
@@ -57,6 +58,8 @@ type c02Variant struct {
 	SkipHV     bool
 	Resumed    bool
 	Stores     bool // session stores on both sides but no earlier session (full handshake that saves one)
+	V13        bool // DTLS 1.3 only
+	HRR        bool // DTLS 1.3: the client's first key share is for a group the server does not allow
 	MTU        int
 	CID        bool
 }
@@ -78,6 +81,16 @@ func c02Variants() []c02Variant {
 	}
 }
 
+// DTLS 1.3 variants: traces are checked by the liveness/discipline monitors only (the Coq model
+// Hs/Abs12.v is the DTLS 1.2 machinery).
+func c02Variants13() []c02Variant {
+	return []c02Variant{
+		{Name: "v13", V13: true},
+		{Name: "v13-hrr", V13: true, HRR: true},
+		{Name: "v13-mtu300", V13: true, MTU: 300},
+	}
+}
+
 func (v c02Variant) configs(cs, ss *c02Store) (*dtlsConfig, *dtlsConfig) {
 	var c, s *dtlsConfig
 	if v.PSK {
@@ -95,6 +108,14 @@ func (v c02Variant) configs(cs, ss *c02Store) (*dtlsConfig, *dtlsConfig) {
 		}
 	}
 	s.InsecureSkipVerifyHello = v.SkipHV
+	if v.V13 {
+		c.MinVersion, c.MaxVersion = protocol.Version1_3, protocol.Version1_3
+		s.MinVersion, s.MaxVersion = protocol.Version1_3, protocol.Version1_3
+		if v.HRR {
+			c.EllipticCurves = []elliptic.Curve{elliptic.X25519, elliptic.P256}
+			s.EllipticCurves = []elliptic.Curve{elliptic.P256}
+		}
+	}
 	if v.MTU > 0 {
 		c.MTU, s.MTU = v.MTU, v.MTU
 	}
@@ -415,5 +436,51 @@ func TestVerifC02(t *testing.T) {
 		var res c02Case
 		vBubble(t, func(t *testing.T) { res = runC02(t, j.v, j.mask, c02Opt{}) })
 		out.emit(res)
+	}
+}
+
+// TestVerifC02V13: DTLS 1.3 handshakes (with and without HelloRetryRequest) under the same fault
+// masks; monitor-only leg.
+func TestVerifC02V13(t *testing.T) {
+	out := newVOut(t)
+	rng := newVRand(vSeed() ^ 0xc0213)
+	acts := []string{"pass", "drop", "dup", "hold:1", "hold:3"}
+	for _, v := range c02Variants13() {
+		var masks [][]string
+		masks = append(masks, nil)
+		for i := 0; i < 12; i++ {
+			for _, a := range acts[1:] {
+				m := make([]string, i+1)
+				for j := range m {
+					m[j] = "pass"
+				}
+				m[i] = a
+				masks = append(masks, m)
+			}
+		}
+		n := 30
+		if vIsThorough() {
+			n = 1500
+		}
+		for i := 0; i < n; i++ {
+			l := 3 + rng.intn(14)
+			m := make([]string, l)
+			for j := range m {
+				if rng.chance(65) {
+					m[j] = "pass"
+				} else {
+					m[j] = acts[1+rng.intn(len(acts)-1)]
+				}
+			}
+			masks = append(masks, m)
+		}
+		for _, m := range masks {
+			v, m := v, m
+			var res c02Case
+			vBubble(t, func(t *testing.T) { res = runC02(t, v, m, c02Opt{Limit: 200 * time.Second}) })
+			res.Kind = "c02v13"
+			res.Events = nil // not replayed through a model: keep the output small
+			out.emit(res)
+		}
 	}
 }
